@@ -206,6 +206,16 @@ func completeStream(streams []*progen.Stream, shard int) *progen.Stream {
 	return nil
 }
 
+// completeStreams returns every complete computation of the shard (a task may run more than once).
+func completeStreams(streams []*progen.Stream, shard int) (out []*progen.Stream) {
+	for _, s := range streams {
+		if s.Shard == shard && s.Ends > 0 && s.End == "EOF" {
+			out = append(out, s)
+		}
+	}
+	return out
+}
+
 func anyStream(streams []*progen.Stream, shard int) bool {
 	for _, s := range streams {
 		if s.Shard == shard {
@@ -346,9 +356,17 @@ func runCase(c Case, dir string) (err error, counts map[string]int) {
 				}
 				return fmt.Errorf("%s node %d shard %d: after a run with fault %v (run error: %v) a shard file exists that does not decode completely: %v", cn.n.Op, cn.id, s, c.Fault, first.err, rerr), counts
 			}
-			if st := completeStream(first.streams[cn.obs], s); st != nil {
-				if !bagEq(cn.n.Schema, rows, st.Rows) || len(rows) != len(st.Rows) {
-					return fmt.Errorf("%s node %d shard %d: the shard file holds %d rows, the computation that wrote it produced %d rows (fault %v)", cn.n.Op, cn.id, s, len(rows), len(st.Rows), c.Fault), counts
+			if sts := completeStreams(first.streams[cn.obs], s); len(sts) > 0 {
+				// the file must hold the rows of one of the complete computations of the shard (a task that
+				// was re-run after a fault may legitimately have produced other rows, e.g. under Head)
+				match := false
+				for _, st := range sts {
+					if len(rows) == len(st.Rows) && bagEq(cn.n.Schema, rows, st.Rows) {
+						match = true
+					}
+				}
+				if !match {
+					return fmt.Errorf("%s node %d shard %d: the shard file holds %d rows, which are the rows of none of the %d complete computations of that shard (the first produced %d rows; fault %v)", cn.n.Op, cn.id, s, len(rows), len(sts), len(sts[0].Rows), c.Fault), counts
 				}
 			} else if pre, ok := content[p]; ok {
 				if !bagEq(cn.n.Schema, rows, pre) {
